@@ -217,6 +217,7 @@ func TestC02LockSvc(t *testing.T) {
 		d, c := draws(t)
 		ls := sysbind.NewLockSvc(n, d, c)
 		ls.Store.RefusePct = rapid.SampledFrom([]int{0, 0, 5, 20}).Draw(t, "precommit-refusals")
+		ls.Store.RefuseWritePct = rapid.SampledFrom([]int{0, 0, 10, 30}).Draw(t, "write-refusals")
 		p := &spectrace.Pair{Module: "locksvc", SpecPath: "/repo/systems/locksvc/locksvc.tla", Constants: []string{fmt.Sprintf("NumClients = %d", n)},
 			Store: ls.Store, Globals: []string{"network", "hasLock"}, Procs: ls.Sim.Insts, CheckInit: true,
 			Locals:  []spectrace.Local{{TLA: "msg", Go: "AServer.msg", Owners: []*sched.Instance{ls.Server}}, {TLA: "q", Go: "AServer.q", Owners: []*sched.Instance{ls.Server}}},
@@ -238,6 +239,7 @@ func TestC02DQueue(t *testing.T) {
 		d, c := draws(t)
 		s := sysbind.NewDQueue(n, buf, d, c)
 		s.Store.RefusePct = rapid.SampledFrom([]int{0, 0, 5, 20}).Draw(t, "precommit-refusals")
+		s.Store.RefuseWritePct = rapid.SampledFrom([]int{0, 0, 10, 30}).Draw(t, "write-refusals")
 		p := &spectrace.Pair{Module: "dqueue", SpecPath: "/repo/systems/dqueue/dqueue.tla",
 			Constants: []string{fmt.Sprintf("NUM_CONSUMERS = %d", n), fmt.Sprintf("BUFFER_SIZE = %d", buf), "PRODUCER = 0"},
 			Store:     s.Store, Globals: []string{"network", "processor", "stream"}, Procs: s.Sim.Insts, CheckInit: true,
@@ -284,6 +286,7 @@ func TestC02PBKVS(t *testing.T) {
 			return uint(rapid.IntRange(0, int(k)-1).Draw(t, id))
 		})
 		pb.Store.RefusePct = rapid.SampledFrom([]int{0, 0, 5, 20}).Draw(t, "precommit-refusals")
+		pb.Store.RefuseWritePct = rapid.SampledFrom([]int{0, 0, 10, 30}).Draw(t, "write-refusals")
 		rl := func(tlaName, goName string) spectrace.Local {
 			return spectrace.Local{TLA: tlaName, Go: "AReplica." + goName, Owners: pb.Replicas}
 		}
